@@ -149,16 +149,25 @@ def replay(ctx, path):
     print("store:", w, "history:", json.dumps(hist), "operation:", json.dumps(op))
     # ask the model what it allows after this history (trace validation of history + op with the recorded values),
     # and show what the real store does now
-    case = {"w": w, "hist": hist, "st": {"nodes": [], "rows": []}, "succ": []}
-    if op:
-        case["succ"] = d.get("expected") and [{"op": op, "ret": e.get("ret"), "st": e.get("st")} for e in d["expected"]] or []
-    cp = ctx.write_cases([case], "one.ndjson")
-    out = os.path.join(ctx.work, "o.ndjson")
-    ctx.engine(ENGINE, ["--mode", "replay", "--cases", cp, "--out", out, "--repos", 4, "--nodes", 5, "--procs", 1])
-    for r in ctx.read_ndjson(out):
+    def engine(case, name):
+        cp = ctx.write_cases([case], name + ".ndjson")
+        out = os.path.join(ctx.work, name + ".out")
+        ctx.engine(ENGINE, ["--mode", "replay", "--cases", cp, "--out", out, "--repos", 4, "--nodes", 5, "--procs", 1])
+        return [r for r in ctx.read_ndjson(out) if not r.get("summary")]
+    # 1. the tables the real store holds after the history
+    st = {"nodes": [], "rows": []}
+    for r in engine({"w": w, "hist": hist, "st": st, "succ": []}, "state"):
         if r.get("what") == "state":
-            print("tables after the history:", json.dumps(r["actual"]))
-        else:
-            print(json.dumps(r)[:2000])
+            st = r["actual"]["st"]
+    print("tables after the history (real store):", json.dumps(st))
+    # 2. the operation, judged against the outcomes the model allowed when the violation was found
+    if op:
+        exp = [{"op": op, "ret": e.get("ret"), "st": e.get("st")} for e in (d.get("expected") or [])]
+        print("model allows:", json.dumps([{"ret": e["ret"], "st": e["st"]} for e in exp]))
+        res = engine({"w": w, "hist": hist, "st": st, "succ": exp or [{"op": op, "ret": None, "st": {"nodes": [], "rows": []}}]}, "step")
+        if not res:
+            print("real store now answers inside the allowed outcomes")
+        for r in res:
+            print("real store:", json.dumps(r.get("actual")), r.get("problems") or "")
     ctx.cleanup()
     return 0
